@@ -410,6 +410,24 @@ func (p *Program) typedModSet(vc *VC, tc *Contract) *ModSet {
 				continue
 			}
 			ms.Old[c] = true
+		case e.Op == "call" && e.Name == "fresh":
+			ms.FreshAll = true
+		case e.Op == "call" && e.Name == "pkgfields" && len(e.Args) == 1 && e.Args[0].Op == "ident":
+			// every field of every struct type declared in the named package
+			sv := p.scratch()
+			for _, nt := range p.allNamed {
+				if nt.Obj().Pkg().Name() != e.Args[0].Name {
+					continue
+				}
+				if st, ok := nt.Underlying().(*types.Struct); ok {
+					for i := 0; i < st.NumFields(); i++ {
+						c, _, _ := sv.fieldCompOf(nt, i)
+						ms.Old[c] = true
+						ms.Sorts[c] = sv.compSort[c]
+						ms.Types[c] = sv.compType[c]
+					}
+				}
+			}
 		case e.Op == "call" && e.Name == "objects":
 			// payloads of all object types
 			for _, nt := range p.allNamed {
